@@ -67,6 +67,9 @@ def base_data(dt, shape=(4, 3), salt=0):
     return x.astype(d)
 
 
+SUBCLASS_MODE = {"on": False}  # (set per case by the sub-checks that draw it: signals are then instances of a user-defined subclass)
+
+
 def mk_sig(pb, cls, data, which=0, dask=False):
     kw = [dict(sample_rate=2 * u.kHz, start_time=G.mk_time({"mjd": 58000, "frac": 0.25}), meta={"who": "first"}),
           dict(sample_rate=5 * u.Hz, start_time=None, meta={"who": "second"}),
@@ -81,13 +84,16 @@ def mk_sig(pb, cls, data, which=0, dask=False):
         import dask.array as da
 
         data = da.from_array(data, chunks=(2,) + data.shape[1:])
-    return getattr(pb, cls)(data, **kw)
+    klass = getattr(pb, cls)
+    if SUBCLASS_MODE["on"]:
+        klass = G.user_subclass(klass)
+    return klass(data, **kw)
 
 
 def admits(cls, dtype):
     from ..contract import REQ_DTYPES
 
-    req = REQ_DTYPES[cls]
+    req = REQ_DTYPES[cls[2:] if cls.startswith("My") else cls]  # (a user subclass "My<Class>" has its base class's dtype contract)
     return req is None or np.dtype(dtype) in [np.dtype(r) for r in req]
 
 
@@ -363,10 +369,21 @@ def op_case(draw):
         shape = (5,)
     other = draw(st.sampled_from(["sig", "sig_other_class", "arr", "arr_bcast", "scalar", "npscalar", "npscalar_wide", "quantity"]))
     return {"dtype": dt, "cls": cls, "shape": list(shape), "op": draw(st.sampled_from(sorted(BINOPS) + sorted(UNOPS))), "other": other,
-            "order": draw(st.sampled_from(["sig_first", "sig_second"])), "salt": draw(st.integers(0, 50)), "dask": draw(st.integers(0, 4)) == 0}
+            "order": draw(st.sampled_from(["sig_first", "sig_second"])), "salt": draw(st.integers(0, 50)), "dask": draw(st.integers(0, 4)) == 0,
+            "user_subclass": draw(st.integers(0, 7)) == 0}
 
 
 def run_op(case, stt):
+    SUBCLASS_MODE["on"] = bool(case.get("user_subclass"))
+    try:
+        if SUBCLASS_MODE["on"]:
+            stt.label("user_subclass_operands")
+        return _run_op(case, stt)
+    finally:
+        SUBCLASS_MODE["on"] = False
+
+
+def _run_op(case, stt):
     import pulsarbat as pb
 
     dt, cls, shape = case["dtype"], case["cls"], tuple(case["shape"])
